@@ -134,7 +134,8 @@ def fileEntries (es : List (Entry β)) : List (Entry β) :=
 
 /-- **archive_manifest_agree.**  In what `vsb backup` writes for any tree and any choice of stored files (`render`):
 the manifest has exactly one record per regular-file entry of the archive, in the same order, for the same path;
-a `unique` record's entry carries exactly `size` bytes hashing to `hash`; the entry of every other record carries no
+a `unique` record's entry carries at least `size` bytes, the first `size` of which hash to `hash` (exactly `size` bytes
+when the file did not shrink while it was archived: `pad = []`); the entry of every other record carries no
 data; and the archive has the same entries, in the same order and with the same headers, as the tree (only file
 data is dropped for files not stored here). -/
 theorem archive_manifest_agree (hashOf : List β → H) (lb : LBackup β) :
@@ -142,7 +143,8 @@ theorem archive_manifest_agree (hashOf : List β → H) (lb : LBackup β) :
       recs.length = (fileEntries (render hashOf lb).archive).length ∧
       (∀ (i : Nat) (r : MRec H) (e : Entry β), recs[i]? = some r → (fileEntries (render hashOf lb).archive)[i]? = some e →
         r.path = keyE e ∧
-        (r.unique = true → e.data.length = r.size ∧ hashOf e.data = r.hash) ∧
+        (r.unique = true → r.size ≤ e.data.length ∧ hashOf (e.data.take r.size) = r.hash ∧
+          (lb.pad = (fun _ => []) → e.data.length = r.size)) ∧
         (r.unique = false → e.data = [])) ∧
       (render hashOf lb).archive.map fpOf = lb.es.map fpOf := by
   refine ⟨_, rfl, ?_, ?_, ?_⟩
@@ -167,11 +169,18 @@ theorem archive_manifest_agree (hashOf : List β → H) (lb : LBackup β) :
           refine ⟨rfl, ?_, ?_⟩
           · intro hu
             simp only [Bool.and_eq_true, decide_eq_true_eq] at hu
-            simp [Entry.data, hu.2]
+            have hne : d.isEmpty = false := by
+              cases d with
+              | nil => exact absurd rfl hu.1
+              | cons _ _ => rfl
+            simp only [Entry.data, hu.2, if_true, padded, hne, Bool.false_eq_true, if_false]
+            refine ⟨by simp, by simp, ?_⟩
+            intro hp
+            simp [hp]
           · intro hu
             by_cases hst : lb.stored p = true
             · simp only [hst, Bool.and_true, decide_eq_false_iff_not, Decidable.not_not] at hu
-              simp [Entry.data, hst, List.eq_nil_of_length_eq_zero hu]
+              simp [Entry.data, hst, padded, List.eq_nil_of_length_eq_zero hu]
             · simp [Entry.data, hst]
         | succ i =>
           simp only [List.getElem?_cons_succ] at hr he
